@@ -1112,33 +1112,23 @@ CANDIDATE_SIG = {"oracle": "over_limit", "congested": True, "got": None}
 
 
 def run_candidates(ctx, s, cases):
-    """Inputs that probe the window between a silently raised limit and the advertised one (candidate finding F-C07-4).
-    When known_findings.json lists the signature (open) they are ordinary cases: the oracle's verdict is a known finding.
-    Until then the verdicts are MEASURED and REPORTED in the evidence (coverage.candidate_findings) and in docs/C07.md, but
-    do not fail the check; a model/implementation disagreement on them always does."""
-    listed = any(kf.get("property") == "C07" and kf.get("status") == "open" and core._sig_match(kf.get("match", {}), CANDIDATE_SIG)
-                 for kf in getattr(ctx, "known", []))
-    if listed:
-        s.run(cases)
-        return {"listed_in_known_findings": True, "cases": len(cases)}
-    quiet, hits, other = [], [], []
+    """The 22 inputs that probe the window between a limit doubled in memory and the value on the wire (finding C07-F4, fixed in
+    /repo by 825d3fa).  They are REGRESSION WITNESSES: ordinary cases of the tie (model comparison, oracle (i) and (ii), shrinking,
+    VIOLATION with a concrete replay).  On a tree that assigns a raised limit only next to the written frame every one of them
+    closes with FLOW_CONTROL_ERROR / STREAM_LIMIT_ERROR; on a tree that raises before start_frame() the oracle reports "beyond an
+    advertised limit ... stayed open" as impl-violations (the model follows the probed flag, so there is no disagreement)."""
+    fams = collections.OrderedDict()
     for c in cases:
-        d, e, g = s.disagree(c)
-        if d:
-            quiet.append(c)          # correspondence failure: goes through the normal path below
-            continue
+        fams.setdefault(c["kind"], []).append(c)
+    for fam in fams.values():
+        s.run(fam)
+    hits = []
+    for c in cases:
         bad = oracle(c)
-        if bad is None:
-            continue
-        what, sig = bad
-        if all(sig.get(k) == v for k, v in CANDIDATE_SIG.items()):
-            hits.append({"what": what, "signature": sig, "case": c})
-        else:
-            other.append(c)
-    if quiet or other:
-        s.run(quiet + other)
-    return {"listed_in_known_findings": False, "cases": len(cases), "oracle_over_limit_stayed_open": len(hits),
-            "signature": CANDIDATE_SIG, "example": hits[0] if hits else None}
+        if bad is not None:
+            hits.append({"what": bad[0], "signature": bad[1]})
+    return {"cases": len(cases), "oracle_failures": len(hits), "signature_when_failing": CANDIDATE_SIG,
+            "example": hits[0] if hits else None}
 
 
 def suite(ctx):
@@ -1201,7 +1191,7 @@ def run(ctx):
         "subject's own limit raises and such delivery outcomes); distinct = distinct projected "
         "op trace, non-trivial = at least one peer frame processed and an observable produced",
         {"delivery_outcomes": dict(sorted(_DELIVERY.items())), "cut_passes": dict(sorted(_CUT.items())),
-         "candidate_findings": candidates})
+         "regression_witnesses_C07_F4": candidates})
 
 
 def replay(ctx, rep):
